@@ -510,6 +510,7 @@ func profileC03() qProfile {
 	w["cancel"] = 3
 	w["requeue"] = 3
 	w["resume"] = 3
+	w["reopen"] = 3
 	return qProfile{name: "C03", backends: []string{"memory", "sqlite"}, depths: []int{0, 0, 2, 5},
 		drops: []string{"reject", "drop_oldest"}, retention: false, maxOps: 40, weights: w,
 		padSingle: true, explicitTS: 5, blankIDs: true, deliveredOK: true, motifs: append(append(append([][]QOp(nil), motifsExpiry...), motifsReuseID...), motifsMixedBatch...)}
